@@ -394,7 +394,16 @@ func checkJSONObject(p *Prog, r *Report) {
 // ---- R3 ----
 
 func checkRequestTimeouts(p *Prog, r *Report) {
-	isRequest := func(c *ssa.CallCommon) (string, int) {
+	// thin request wrappers of the probe packages: one block, one call - a request whose context is the
+	// wrapper's own parameter; a call of the wrapper is then the request
+	wrappers := map[*ssa.Function]int{}
+	var isRequest func(c *ssa.CallCommon) (string, int)
+	isRequest = func(c *ssa.CallCommon) (string, int) {
+		if f := StaticCallee(c); f != nil {
+			if i, isW := wrappers[f]; isW {
+				return FuncName(f), i
+			}
+		}
 		cf := calleeFull(c)
 		switch {
 		case cf == "net/http.NewRequestWithContext":
@@ -408,10 +417,39 @@ func checkRequestTimeouts(p *Prog, r *Report) {
 		}
 		return "", -2
 	}
+	for _, fn := range p.SrcFuncs() {
+		if fn.Pkg == nil || !(fn.Pkg == p.SPkg("pkg/scan/elastic") || fn.Pkg == p.SPkg("pkg/scan/docker")) || len(fn.Blocks) != 1 {
+			continue
+		}
+		var only *ssa.Call
+		nCalls, pure := 0, true
+		for _, in := range fn.Blocks[0].Instrs {
+			switch t := in.(type) {
+			case *ssa.Call:
+				nCalls++
+				only = t
+			case *ssa.Go, *ssa.Defer, *ssa.Send, *ssa.MapUpdate:
+				pure = false
+			}
+		}
+		if nCalls != 1 || !pure {
+			continue
+		}
+		if what, ci := isRequest(&only.Call); what != "" && ci >= 0 {
+			if prm, isP := only.Call.Args[ci].(*ssa.Parameter); isP {
+				if i := paramIndex(fn, prm); i >= 0 {
+					wrappers[fn] = i
+				}
+			}
+		}
+	}
 	n := 0
 	for _, fn := range p.SrcFuncs() {
 		if fn.Pkg == nil || !(fn.Pkg == p.SPkg("pkg/scan/elastic") || fn.Pkg == p.SPkg("pkg/scan/docker")) {
 			continue
+		}
+		if _, isW := wrappers[fn]; isW {
+			continue // represented by its call sites
 		}
 		k := 0
 		for _, b := range fn.Blocks {
@@ -554,7 +592,7 @@ func checkProtoFlag(p *Prog, r *Report) {
 					fv := fieldVarOfLoad(c.Call.Args[0])
 					validated := false
 					for _, pr := range p.methodsByName("command", "parseRawOptions") {
-						for _, s := range Paths(pr).Segs {
+						for _, s := range PathsInl(pr).Segs {
 							if !s.Returns() || retClass(s) != retFail {
 								continue
 							}
@@ -575,7 +613,7 @@ func checkProtoFlag(p *Prog, r *Report) {
 							}
 						}
 						// and no accepting path allows a third value: accepting paths carry == http or == https
-						for _, s := range Paths(pr).Segs {
+						for _, s := range PathsInl(pr).Segs {
 							if !s.Returns() || retClass(s) == retFail || fv == nil {
 								continue
 							}
